@@ -65,6 +65,13 @@ func checkC13(r *Run) int {
 			tw.StructImport, tw.TFPkg, tw.TFDir = "api/types", "types", "provider/types"
 			tw.Label += "|same-base-name"
 			cases = append(cases, tw)
+			// ... and the same with default_package_name given as that short name plus an import_path_overrides entry
+			ts := space.Variant(c, false, true, "none")
+			ts.Group, ts.Variant = c.Label, "short+override"
+			ts.StructImport, ts.TFPkg, ts.TFDir = "api/types", "types", "provider/types"
+			ts.ShortDefaultPkg = "types"
+			ts.Label += "|same-base-name-short"
+			cases = append(cases, ts)
 			// dotted proto package: protoc-gen-gogo names the struct package <id>_v1; target package with an underscore
 			dp := space.Variant(c, false, true, "none")
 			dp.Group, dp.Variant = c.Label, "separate/dotted-proto-package"
